@@ -21,6 +21,9 @@ RULE = (
 )
 
 
+FETCH_OPS = ("get", "gets", "gat", "gats", "get_many", "gets_many", "stats")
+
+
 def _alphabet():
     return ops.alphabet()
 
@@ -38,7 +41,11 @@ def _jobs(tier):
         for dn in (True, False):
             for dl in deliveries:
                 for i1 in range(len(alpha)):
-                    jobs.append((stack, dn, i1, tier, dl))
+                    jobs.append((stack, dn, i1, tier, dl, False))
+                    # ignore_exc only changes the fetch path of Client/PooledClient, and every
+                    # path of HashClient
+                    if stack.startswith("hash") or alpha[i1].name in FETCH_OPS:
+                        jobs.append((stack, dn, i1, tier, dl, True))
     return jobs
 
 
@@ -67,7 +74,8 @@ def _stack_class(stack):
 
 
 def _worker(job, chk):
-    stack, dn, i1, tier, delivery = job
+    stack, dn, i1, tier, delivery, ignore_exc = job
+    cfg = {"ignore_exc": True} if ignore_exc else None
     alpha = _alphabet()
     cls = _stack_class(stack)
     has = lambda op: hasattr(cls, op.name)  # noqa
@@ -80,7 +88,7 @@ def _worker(job, chk):
             b = 1  # three calls / byte-wise delivery: one deviation; otherwise two
 
         def run(ch, seq=seq):
-            return connoracle.run_sequence(ch, stack, dn, seq, menu, trunc, delivery=delivery)
+            return connoracle.run_sequence(ch, stack, dn, seq, menu, trunc, cfg=cfg, delivery=delivery)
 
         def on_exec(ch, res, seq=seq):
             net, obj, rec = res
@@ -94,7 +102,7 @@ def _worker(job, chk):
                                 "results": [(r["kind"], connoracle.short(r["value"])) for r in rec]})
             bad = connoracle.judge(ch, net, obj, rec, stack, dn, seq)
             if bad:
-                _report(chk, bad, ch, stack, dn, delivery, seq, run, net)
+                _report(chk, bad, ch, stack + ("+ignore_exc" if ignore_exc else ""), dn, delivery, seq, run, net)
 
         n = explore.explore(run, b, on_exec)
         chk.count("sequences")
@@ -133,9 +141,12 @@ def replay(detail):
     alpha = {o.label: o for o in _alphabet()}
     seq = [alpha[l] for l in detail["sequence"]]
     stack, dn = detail["stack"], detail["default_noreply"]
+    cfg = None
+    if stack.endswith("+ignore_exc"):
+        stack, cfg = stack[: -len("+ignore_exc")], {"ignore_exc": True}
 
     def run(ch):
-        return connoracle.run_sequence(ch, stack, dn, seq, simnet.MENU_CONN, "quick",
+        return connoracle.run_sequence(ch, stack, dn, seq, simnet.MENU_CONN, "quick", cfg=cfg,
                                        delivery=detail.get("delivery", "whole"))
 
     ch, (net, obj, rec) = explore.replay(run, detail["choices"])
